@@ -226,6 +226,63 @@ def r20_7(ck: Check) -> None:
         ck.violated("R20.7", "the dialled socket is non-blocking before the connect (the loop never waits on one peer)", "setblocking(False) missing or late", s.fi.loc)
 
 
+def r20_8(ck: Check) -> None:
+    """the loop itself: it ends only through the `running` flag; every ready socket is dispatched (listening socket -> accept, any other ->
+    the per-connection handler with the catch-all); the wait for readiness is bounded, so the managers keep stepping"""
+    r = ck.summ(LPQ + "run", 0)
+    sp = Spec(r, ("self",))
+    running = sp.term("self.running")
+    steps = [e for e in r.events if e.kind == "call" and not e.chain and LPQ + "step_managers" in e.targets]
+    sel = [e for e in r.events if e.kind == "call" and not e.chain and LPQ + "handle_selector_events" in e.targets]
+    construct = "LocalPeer.run: while self.running: step_managers(int(time())); handle_selector_events() — no other way out of the loop"
+    clock = ("call", ("g", "builtin:int"), (("call", ("g", "ext:time.time"), (), ()),), ())
+    ok = (len(steps) == 1 and len(sel) == 1 and steps[0].term[2] == (clock,) and steps[0].seq < sel[0].seq
+          and all(len(e.loops) == 1 and e.loops[0][0] == "while" and e.loops[0][1] == running and not e.loops[0][2] and not residual(e, ()) for e in (steps[0], sel[0])))
+    if ok:
+        ck.ok("R20.8", construct, "", steps[0].loc)
+    else:
+        ck.violated("R20.8", construct, "%s" % [e.describe()[:120] for e in steps + sel], r.fi.loc)
+    h = ck.summ(LPQ + "handle_selector_events", 0)
+    sph = Spec(h, ("self",))
+    selects = [e for e in h.events if e.kind == "call" and not e.chain and e.parts and e.parts[0] == ("a", sph.term("self.selector"), "select")]
+    construct = "handle_selector_events: the wait for readiness is bounded (0 < timeout <= 5 s)"
+    t = None
+    if len(selects) == 1:
+        t = dict(selects[0].term[3]).get("timeout", selects[0].term[2][0] if selects[0].term[2] else None)
+    if t is not None and t[0] == "c" and isinstance(t[1], (int, float)) and not isinstance(t[1], bool) and 0 < t[1] <= 5:
+        ck.ok("R20.8", construct, "timeout=%s" % t[1], selects[0].loc)
+    else:
+        ck.violated("R20.8", construct, "select timeout is %s: without a bound the managers (reconnects, block fetching, greetings) stop stepping "
+                    "while no socket is ready" % (show(t) if t is not None else None), h.fi.loc)
+    if selects:
+        dom = selects[0].term
+        acc = [e for e in h.events if e.kind == "call" and not e.chain and LPQ + "handle_incoming_connection" in e.targets]
+        per = [e for e in h.events if e.kind == "call" and not e.chain and LPQ + "handle_remote_peer_selector_event" in e.targets]
+        construct = "handle_selector_events: every ready key is dispatched: the listening socket to accept, any other to its connection's handler"
+        okd = len(acc) == 1 and len(per) == 1 and all(len(e.loops) == 1 and e.loops[0][1] == dom for e in acc + per)
+        if okd:
+            ca = {x for c in acc[0].pc for x in conjuncts(c.term)}
+            cp = {x for c in per[0].pc for x in conjuncts(c.term)}
+            marker = C(ck.repo.const("skepticoin.networking.remote_peer.LISTENING_SOCKET"))
+            lis = [x for x in ca if x[0] == "cmp" and x[1] in ("is", "==") and (marker in (x[2], x[3])
+                                                                                 or ("g", "skepticoin.networking.remote_peer.LISTENING_SOCKET") in (x[2], x[3]))]
+            okd = len(lis) == 1 and mk_not(lis[0]) in cp and (ca - {lis[0]}) == (cp - {mk_not(lis[0])}) \
+                and (ca - {lis[0]}) <= {running} and per[0].term[2] == (("e", dom, 0), ("e", dom, 1))
+        if okd:
+            ck.ok("R20.8", construct, "", per[0].loc)
+        else:
+            ck.violated("R20.8", construct, "%s" % [e.describe()[:160] for e in acc + per], h.fi.loc)
+    m = ck.summ(LPQ + "step_managers", 0)
+    spm = Spec(m, ("self", "now"))
+    st = [e for e in m.events if e.kind == "call" and not e.chain and e.parts and e.parts[0][0] == "a" and e.parts[0][2] == "step"]
+    construct = "step_managers: every manager steps with the loop's clock value"
+    if len(st) == 1 and st[0].term[2] == (spm.term("now"),) and len(st[0].loops) == 1 and st[0].loops[0][1] == spm.term("self.managers") \
+            and {x for c in st[0].pc for x in conjuncts(c.term)} <= {spm.term("self.running")}:
+        ck.ok("R20.8", construct, "", st[0].loc)
+    else:
+        ck.violated("R20.8", construct, "%s" % [e.describe()[:160] for e in st], m.fi.loc)
+
+
 def r20_4(ck: Check) -> None:
     from .c09 import r09_flow
     from .c10 import r10_4
@@ -322,6 +379,7 @@ def check(ck: Check) -> None:
     ck.run("R20.4", "validate before mutate", lambda: r20_4(ck))
     ck.run("R20.5", "bounded reads", lambda: r20_5(ck))
     ck.run("R20.7", "dialling an announced address cannot end the loop", lambda: r20_7(ck))
+    ck.run("R20.8", "the event loop ends only through its flag, dispatches every ready socket, and never waits unboundedly", lambda: r20_8(ck))
     from .c09 import r09_5
     ck.run("R09.5", "buffering a block before validation writes nothing", lambda: r09_5(ck))
     from .c13 import r13_6
